@@ -2,9 +2,11 @@
    Proved: the recovery mechanisms' local correctness — a sync frame is due whenever frames or packets are
    unacknowledged; the frame receive window accepts any resynchronisation point within one window; the rate never
    drops below s/64 on expiry (so the flush credit refills); acknowledgements release window space (sender
-   release keeps the invariant). End-to-end recovery after arbitrary blackouts is decided on the implementation
+   release keeps the invariant); step() forgets a sent frame only when it is older than max(4 * rtt estimate, rto),
+   so an acknowledgement arriving within one retransmission timeout finds its frame (ForgetRecent.v, the repair D21).
+   End-to-end recovery after arbitrary blackouts is decided on the implementation
    by the blackout / liveness streams with the stall oracle (partial). *)
-From UF Require Import Consts Base Frame Sender Receiver FrameAck FrameQueue SendRate HalfConn HcLemmas SenderProofs SendRateProofs.
+From UF Require Import Consts Base Frame Sender Receiver FrameAck FrameQueue SendRate HalfConn HcLemmas SenderProofs SendRateProofs HcTotal ForgetRecent.
 
 Theorem C11_sync_due :
   forall h out,
@@ -37,3 +39,25 @@ Theorem C11_ack_releases_window :
 Proof. exact acknowledge_wf. Qed.
 
 Check C11_sync_due.
+
+(* step() forgets a prefix of the frame log, every forgotten frame is older than max(4*rtt, rto), and every frame
+   sent within that span is still logged afterwards (D21) *)
+Theorem C11_step_remembers_recent :
+  forall h now h', HcInv h -> hc_step h now = Ok h' ->
+  let rtt := opt_default INITIAL_RTT_ESTIMATE_MS (sr_rtt_ms (h_src h)) in
+  let rto := opt_default INITIAL_RTO_ESTIMATE_MS (sr_rto_ms (h_src h)) in
+  exists k, fq_frames (h_fq h') = skipn k (fq_frames (h_fq h)) /\
+    (forall f, In f (firstn k (fq_frames (h_fq h))) -> le_time f < now - N.max (rtt * 4) rto) /\
+    (forall f, In f (fq_frames (h_fq h)) -> now - N.max (rtt * 4) rto <= le_time f -> In f (fq_frames (h_fq h'))).
+Proof. exact step_remembers_recent. Qed.
+Print Assumptions C11_step_remembers_recent.
+
+(* non-vacuity: a frame sent at 10 ms (initial estimates: rtt 150, rto 600) is still logged after a step at 609 ms
+   and forgotten by a step at 611 ms *)
+Example C11_forget_run :
+  let c := mkHcConfig 4294967295 7 64 64 1048575 3 16 16 100000 100000 100000 None in
+  let h1 := fold_left hc_apply [OpSend [1; 2; 3] 0 Reliable; OpStep 10; OpFlush] (hc_new c 5) in
+  (map le_time (fq_frames (h_fq h1)), map le_time (fq_frames (h_fq (hc_apply h1 (OpStep 609)))),
+   map le_time (fq_frames (h_fq (hc_apply h1 (OpStep 611))))) = ([10], [10], []).
+Proof. vm_compute. reflexivity. Qed.
+Check C11_step_remembers_recent.
